@@ -576,16 +576,32 @@ func fsConcurrent(h *fsHarness, p *prng, rounds int) {
 
 // fsChild: run in a child process, writes events until killed, printing each acknowledged id
 func fsChildMain(args []string) {
-	dir, mb, tso := args[0], atoi(args[1]), args[2] == "1"
-	sink := &eventlogger.FileSink{Path: dir, FileName: "ev.log", MaxBytes: mb, TimestampOnlyOnRotate: tso}
-	w := bufio.NewWriter(os.Stdout)
-	for id := 1; ; id++ {
-		e := &eventlogger.Event{Type: "t", Formatted: map[string][]byte{"json": eventBytes(id, 10+(id*13)%190)}}
-		if _, err := sink.Process(context.Background(), e); err == nil {
-			fmt.Fprintf(w, "%d\n", id)
-			w.Flush()
-		}
+	dir, mb, tso, nSinks := args[0], atoi(args[1]), args[2] == "1", 1
+	if len(args) > 3 {
+		nSinks = atoi(args[3])
 	}
+	// several independent sinks (a directory and a writer each) multiply the moments at which the kill can
+	// fall between two steps of a rotation
+	var mu sync.Mutex
+	w := bufio.NewWriter(os.Stdout)
+	var wg sync.WaitGroup
+	for k := 0; k < nSinks; k++ {
+		wg.Add(1)
+		go func(k int) {
+			defer wg.Done()
+			sink := &eventlogger.FileSink{Path: filepath.Join(dir, fmt.Sprintf("s%d", k)), FileName: "ev.log", MaxBytes: mb, TimestampOnlyOnRotate: tso}
+			for id := 1; ; id++ {
+				e := &eventlogger.Event{Type: "t", Formatted: map[string][]byte{"json": eventBytes(id, 10+(id*13)%190)}}
+				if _, err := sink.Process(context.Background(), e); err == nil {
+					mu.Lock()
+					fmt.Fprintf(w, "%d %d\n", k, id)
+					w.Flush()
+					mu.Unlock()
+				}
+			}
+		}(k)
+	}
+	wg.Wait()
 }
 
 // fsDirOnDemand: "files are created ... in a directory created on demand": every open creates a missing
@@ -799,55 +815,69 @@ func fsKill(h *fsHarness, p *prng, rounds int) {
 		h.st.Cases++
 		dir := filepath.Join(h.base, fmt.Sprintf("kill%d", r))
 		os.RemoveAll(dir)
-		cmd := exec.Command(self, "filesink-child", dir, strconv.Itoa([]int{0, 150, 400}[p.intn(3)]), strconv.Itoa(p.intn(2)))
+		nSinks := 1 + 3*p.intn(2)
+		mb, tso := []int{0, 1, 150, 400}[p.intn(4)], p.intn(2)
+		if r%2 == 0 {
+			// MaxBytes 1: a rotation before every write but the first; eight sinks at it; the plain name renamed
+			// at every rotation
+			mb, tso, nSinks = 1, 1, 8
+		}
+		cmd := exec.Command(self, "filesink-child", dir, strconv.Itoa(mb), strconv.Itoa(tso), strconv.Itoa(nSinks))
 		out, _ := cmd.StdoutPipe()
 		cmd.Start()
-		done := make(chan []int, 1)
+		done := make(chan map[int][]int, 1)
 		go func() {
-			var ids []int
+			ids := map[int][]int{}
 			sc := bufio.NewScanner(out)
 			for sc.Scan() {
-				ids = append(ids, atoi(sc.Text()))
+				f := strings.Fields(sc.Text())
+				if len(f) == 2 {
+					ids[atoi(f[0])] = append(ids[atoi(f[0])], atoi(f[1]))
+				}
 			}
 			done <- ids
 		}()
-		time.Sleep(time.Duration(2000+p.intn(15000)) * time.Microsecond)
+		time.Sleep(time.Duration(3000+p.intn(9000)) * time.Microsecond)
 		cmd.Process.Signal(syscall.SIGKILL)
 		cmd.Wait()
-		acked := <-done
-		hh := &fsHarness{dir: dir, st: h.st, stem: "ev", ext: ".log"}
-		fs, bad := hh.list()
-		if bad != "" {
-			h.oracle("C08 after SIGKILL: %s", bad)
-			continue
-		}
-		seen := map[int]int{}
-		max := 0
-		for _, f := range fs {
-			for _, id := range f.ids {
-				seen[id]++
-				if id > max {
-					max = id
+		ackedBy := <-done
+		for k := 0; k < nSinks; k++ {
+			acked := ackedBy[k]
+			hh := &fsHarness{dir: filepath.Join(dir, fmt.Sprintf("s%d", k)), st: h.st, stem: "ev", ext: ".log"}
+			if _, err := os.Stat(hh.dir); err != nil {
+				continue // killed before this sink wrote anything
+			}
+			fs, bad := hh.list()
+			if bad != "" {
+				h.oracle("C08 after SIGKILL: %s", bad)
+				continue
+			}
+			seen := map[int]int{}
+			max := 0
+			for _, f := range fs {
+				for _, id := range f.ids {
+					seen[id]++
+					if id > max {
+						max = id
+					}
 				}
 			}
-		}
-		lastAck := 0
-		for _, a := range acked {
-			if seen[a] != 1 {
-				h.oracle("C08 after SIGKILL acknowledged event %d present %d times", a, seen[a])
+			for _, a := range acked {
+				if seen[a] != 1 {
+					h.oracle("C08 after SIGKILL acknowledged event %d present %d times", a, seen[a])
+				}
 			}
-			lastAck = a
-		}
-		// at most the one in flight beyond the acknowledged ones (an ack may also be lost in the pipe: ids are consecutive)
-		for id := 1; id <= max; id++ {
-			if seen[id] != 1 {
-				h.oracle("C08 after SIGKILL event %d missing or duplicated below the last written %d", id, max)
-				break
+			// at most the one in flight beyond the acknowledged ones (an ack may also be lost in the pipe: ids are consecutive)
+			for id := 1; id <= max; id++ {
+				if seen[id] != 1 {
+					h.oracle("C08 after SIGKILL event %d missing or duplicated below the last written %d", id, max)
+					break
+				}
 			}
+			h.st.Ops += max
 		}
-		_ = lastAck
 		h.st.hit("kill:rounds")
-		h.st.Ops += max
+		h.st.hit(fmt.Sprintf("kill:sinks=%d", nSinks))
 		os.RemoveAll(dir)
 	}
 }
